@@ -28,6 +28,7 @@ UNIVERSE = [
     R + (1, 129),
     R + (1, 200),
     R + (1, 16383),
+    R + (1, 16383, 7),
     R + (1, 16384),
     R + (1, 16384, 1),
     R + (1, 2097152),
@@ -35,9 +36,9 @@ UNIVERSE = [
     R[:-1] + (10, 1),  # after the subtree
 ]
 # quick tier uses a 10-element sub-universe, thorough all 14
-QUICK_IDX = [0, 1, 2, 3, 5, 7, 9, 10, 12, 13]
-BASES = [R, R + (1,), R + (1, 1), R + (1, 2), R + (1, 16384), R + (1, 5), R + (2,), (1, 3), R + (3,)]
-KINDS = ["int", "octets", "counter32", "oid", "gauge32", "timeticks", "counter64", "ipaddr", "uint32", "opaque", "bool", "objdesc", "int", "octets"]
+QUICK_IDX = [0, 1, 2, 3, 5, 7, 9, 10, 11, 14]
+BASES = [R, R + (1,), R + (1, 1), R + (1, 2), R + (1, 16384), R + (1, 16383), R + (1, 5), R + (2,), (1, 3), R + (3,)]
+KINDS = ["int", "octets", "counter32", "oid", "gauge32", "timeticks", "counter64", "ipaddr", "uint32", "opaque", "bool", "objdesc", "int", "octets", "counter32"]
 
 
 def entry(i):
@@ -320,8 +321,8 @@ def run(tier):
     rec = common.Recorder(PROPERTY, tier, LEVEL, MODULE)
     rec.rule = (
         "every MIB that is a subset of the OID universe (arcs 1,2,127,128,129,200,16383,16384,2097152; a child below a leaf-like node; entries before "
-        "and after the subtree) x 9 bases (root, subtree, node with child, leaf, deep, absent, last, '1.3', beyond) x {getnext; getbulk max_rep x agent cap; fetch} "
-        "x {v1,v2c,v3} through sync and async iterators. Non-trivial = the expected result is non-empty. Quick: 2^10 MIBs (sync), 2^8 (async); thorough: 2^14."
+        "and after the subtree) x 10 bases (root, subtree, node with child, leaf, two multi-octet arcs, absent, last, '1.3', beyond) x {getnext; getbulk max_rep x agent cap; fetch} "
+        "x {v1,v2c,v3} through sync and async iterators. Non-trivial = the expected result is non-empty. Quick: 2^10 MIBs (sync), 2^8 (async); thorough: 2^15."
     )
     rec.assume(
         "agent = RFC 3416 reference (vlib/refagent.py): lexicographic successor over arcs, endOfMibView repeated up to the cap, v1 noSuchName with echoed varbinds",
